@@ -626,14 +626,12 @@ def response_coefficients(
         ResponseCoefficientsByPars: Object containing the response coefficients for the given parameters
 
     """
-    if variables is not None:
-        model.update_variables(variables)
-
     res = parallelise(
         fn=partial(
             _update_parameters_and_initial_conditions,
             fn=partial(
                 mca.response_coefficients,
+                variables=variables,
                 to_scan=to_scan,
                 normalized=normalized,
                 displacement=displacement,
